@@ -414,13 +414,23 @@ Theorem qua_write_clean_chart_ok :
   let c := wit_conv_chart false false in
   wf_chartb false c = true /\ write_ok c = true /\ wr_specb c (Live.write c >>= Live.read) = true.
 Proof. vm_compute. repeat split. Qed.
-(* InitialScrollVelocity: a document that omits it is read with '' and written with '' in a float field;
-   stated relative to the live default so that it keeps holding (vacuously) once the default is a float *)
-Theorem qua_isv_default_refuted :
+(* InitialScrollVelocity.  OLD defaults (before e825b78): a document that omits it was read with '' and written with ''
+   in a float field *)
+Theorem OLD_isv_default_refuted :
   wf_docb wit_omit_isv = true /\
-  (has_type 2 (match assoc K_InitialScrollVelocity Live.meta_defaults with Some v => v | None => YNull end)
-   || negb (rw_ok wit_omit_isv)) = true.
+  read_specb wit_omit_isv (Live.read_OLDMETA wit_omit_isv) = false /\
+  rw_specb wit_omit_isv (Live.read_OLDMETA wit_omit_isv >>= Live.write_OLDMETA) = false.
 Proof. vm_compute. repeat split. Qed.
+(* now: the live default is the float 1.0, the document is read and written back correctly *)
+Theorem qua_isv_default_is_float_1 : assoc K_InitialScrollVelocity Live.meta_defaults = Some (YFloat 1).
+Proof. vm_compute. reflexivity. Qed.
+Theorem qua_isv_omitted_ok : wf_docb wit_omit_isv = true /\ read_ok wit_omit_isv = true /\ rw_ok wit_omit_isv = true.
+Proof. vm_compute. repeat split. Qed.
+(* every live default has the declared type of its key *)
+Theorem qua_meta_defaults_typed :
+  all2 (fun kt kd => (fst kt =? fst kd) && has_type (if fst kt =? ref_tags_key then 4 else snd kt) (snd kd))
+       ref_meta_table Live.meta_defaults = true.
+Proof. vm_compute. reflexivity. Qed.
 (* non-vacuity: a document inside every guard (hit with omitted StartTime, hold, key sound) is read as it denotes,
    written well-formed, and a second generation is identical *)
 Theorem qua_clean_doc_ok :
